@@ -287,9 +287,55 @@ Theorem c16_entity_header_roundtrip :
   = Some (mk_head H (match bases with [] => false | _ => alias && custom end) bases hs cls (List.concat secs), rest).
 Proof. exact head_roundtrip. Qed.
 
-(** the `(a, b, c)` of a helper or of base(): `', '.join(args)` is split at ',' and stripped back to the arguments *)
-Theorem c16_helper_args_roundtrip : forall args, Forall arg_ok args -> paren_args (join_cs args) = args.
-Proof. exact paren_args_join. Qed.
+(** the `(a, b, c)` of a helper or of base(): `', '.join(args)` is split at ',' and stripped back to the arguments.  Round 5:
+    arguments may be BLANK at any position ([args_ok]: every argument stripped and comma-free, the list is not [['']]) — the writer
+    leaves an empty slot (`frustum(lightfov, , , lightcolor, -1)`) and the reader must keep it, because helper arguments are
+    positional.  The one list that cannot come back is the sole blank argument: `helper()` is read as no argument at all. *)
+Theorem c16_helper_args_roundtrip : forall args, args_ok args -> paren_args (join_cs args) = args.
+Proof. exact paren_args_join0. Qed.
+Theorem c16_helper_args_sole_blank : paren_args (join_cs [[]]) = [] /\ paren_args (join_cs []) = [].
+Proof. exact paren_args_sole_blank. Qed.
+(** [gen_args_cfg] is read off the PAREN_ARGS branch of EntityDef.parse on every run (separator, strip, the comprehension's
+    filter, the `['']` special case); [helper_arg_joiners] = every string literal whose .join() writes an argument list in
+    EntityDef.export.  EVERY configuration of today's shape computes [paren_args] on all inputs, hence reads back what was written. *)
+Definition helper_args_program_ok : bool := args_cfg_ok gen_args_cfg.
+(** computed witnesses with today's configuration: blank arguments at the first, a middle, the last and several positions come back
+    where they were, and `name()` is no argument *)
+Fixpoint strs_eqb (a b : list str) : bool :=
+  match a, b with [] , [] => true | x :: a', y :: b' => nlist_eqb x y && strs_eqb a' b' | _, _ => false end.
+Definition blank_witnesses : list (list str) :=
+  [[[108]; []; [99]]; [[]; [108]]; [[108]; []]; [[]; []]; [[108]; []; []; [99; 32; 100]; []]; [[]; []; []]].
+Definition helper_args_blank_kept : bool :=
+  forallb (fun l => strs_eqb (paren_args_with gen_args_cfg (join_cs l)) l) blank_witnesses.
+Definition helper_args_empty_parens_no_argument : bool :=
+  match paren_args_with gen_args_cfg [] with [] => true | _ => false end.
+Definition helper_args_joined_by_comma_blank : bool :=
+  negb (match helper_arg_joiners with [] => true | _ => false end) && forallb (nlist_eqb [COMMA; 32]) helper_arg_joiners.
+Definition helper_args_ok : bool := helper_args_program_ok && helper_args_joined_by_comma_blank.
+Theorem c16_helper_args_program_is_model : forall c, args_cfg_ok c = true -> forall s, paren_args_with c s = paren_args s.
+Proof. exact paren_args_with_is_model. Qed.
+Theorem c16_helper_args_program_roundtrip : forall c, args_cfg_ok c = true -> forall args, args_ok args ->
+  paren_args_with c (join_cs args) = args.
+Proof. exact paren_args_with_roundtrip. Qed.
+(** the nearby wrong shapes: a filter in the comprehension (`if arg.strip()` / `if arg`) also turns `helper()` into no argument, but
+    drops every blank argument, so the later ones shift left; without the special case `helper()` has one blank argument *)
+Definition filter_stripped_cfg : args_cfg := mk_args_cfg COMMA true FDropStripped false.
+Definition filter_raw_cfg : args_cfg := mk_args_cfg COMMA true FDropRaw true.
+Example c16_helper_args_filter_refuted :
+  let a := [108] in let b := [99] in
+  args_ok [a; []; []; b] /\ args_ok [[]; a]
+  /\ paren_args_with filter_stripped_cfg (join_cs [a; []; []; b]) = [a; b]
+  /\ paren_args_with filter_raw_cfg (join_cs [[]; a]) = [a]
+  /\ paren_args_with filter_stripped_cfg (join_cs []) = []
+  /\ paren_args_with (mk_args_cfg COMMA true FKeep false) (join_cs []) = [[]]
+  /\ paren_args (join_cs [a; []; []; b]) = [a; []; []; b] /\ paren_args (join_cs [[]; a]) = [[]; a].
+Proof.
+  cbv zeta. repeat split; try (vm_compute; reflexivity); try discriminate;
+    repeat (constructor; try (split; vm_compute; reflexivity)).
+Qed.
+Definition filter_blank_breaks : bool :=
+  negb (Nat.eqb (List.length (paren_args_with filter_stripped_cfg (join_cs [[108]; []; [99]]))) 3)
+  && negb (Nat.eqb (List.length (paren_args_with filter_raw_cfg (join_cs [[]; [108]]))) 2).
 
 (** Composition of the header with [c16_entity_body_roundtrip]: a WHOLE entity definition as written — header, `[`, keyvalue / input /
     output lines, @resources, `]` — is read back as the same header fields and the same body. *)
@@ -879,10 +925,10 @@ Definition multi_lazy_equals_eager_at (via : bool) (mode : merge_mode) : Prop :=
   = map (engine_dbase name ent bytes name_eqb decode ent_bases is_empty empty_bytes via mode g Bs) qs.
 Definition c16_property_hypotheses : bool :=
   line_cfg_ok gen_line_cfg && kv_type_prog_ok && io_type_prog_ok && type_table_ok && kind_keywords_read_back
-  && blocks_cfg_ok && lazy_via_get_ent && multi_modes_agree.
-Fact and8_true (a b c d e f g h : bool) : a && b && c && d && e && f && g && h = true ->
-  a = true /\ b = true /\ c = true /\ d = true /\ e = true /\ f = true /\ g = true /\ h = true.
-Proof. destruct a, b, c, d, e, f, g, h; cbn; intros; try discriminate; repeat split. Qed.
+  && blocks_cfg_ok && lazy_via_get_ent && multi_modes_agree && helper_args_ok.
+Fact and9_true (a b c d e f g h i : bool) : a && b && c && d && e && f && g && h && i = true ->
+  a = true /\ b = true /\ c = true /\ d = true /\ e = true /\ f = true /\ g = true /\ h = true /\ i = true.
+Proof. destruct a, b, c, d, e, f, g, h, i; cbn; intros; try discriminate; repeat split. Qed.
 Fact line_cfg_ok_parts (c : line_cfg) : line_cfg_ok c = true -> colons_before_desc_without_default c = 2%nat /\ res_block_if_defined c = true.
 Proof.
   unfold line_cfg_ok. intros H. apply andb_true_iff in H as [H R]. apply andb_true_iff in H as [H _]. split; [apply Nat.eqb_eq; exact H | exact R].
@@ -903,13 +949,16 @@ Theorem c16_property : c16_property_hypotheses = true ->
         nodupN all = true -> pairs_ok all pairs = true ->
         (forall x, count_occ N.eq_dec order x = count_occ N.eq_dec (leftovers all (pair_loop gen_bcfg size maxsz pairs)) x) ->
         forall x, count_occ N.eq_dec (List.concat (build_with gen_bcfg size maxsz pairs order)) x = count_occ N.eq_dec all x)
-  /\ multi_lazy_equals_eager_at lazy_via_get_ent engine_dbase_merge.
+  /\ multi_lazy_equals_eager_at lazy_via_get_ent engine_dbase_merge
+  /\ (forall args, args_ok args -> paren_args_with gen_args_cfg (join_cs args) = args).
 Proof.
-  intros H. destruct (and8_true _ _ _ _ _ _ _ _ H) as (L & K & I & T & W & B & V & M). clear H.
+  intros H. destruct (and9_true _ _ _ _ _ _ _ _ _ H) as (L & K & I & T & W & B & V & M & A). clear H.
+  unfold helper_args_ok in A. apply andb_true_iff in A as [A _].
   destruct (line_cfg_ok_parts _ L) as [C2 R].
   unfold multi_modes_agree in M. apply andb_true_iff in M as [M _]. apply merge_is_first_eq in M.
   pose proof (type_text_property_gen kv_type_prog io_type_prog vt_lookup_tab TARGET_DESTINATION K I T) as (P1 & P2 & P3).
-  split; [|split; [|split; [|split]]].
+  split; [|split; [|split; [|split; [|split]]]].
+  6: { intros. apply paren_args_with_roundtrip; assumption. }
   - unfold entity_text_roundtrip_at. intros. apply entity_roundtrip; assumption.
   - exact (conj P1 (conj P2 P3)).
   - apply kind_keyword_roundtrip. exact W.
